@@ -109,7 +109,7 @@ pub fn hostile_ops() -> proptest::strategy::BoxedStrategy<Op> {
 
 pub fn test(h: &History, st: &mut Stats) -> R {
     let mut mon = CloseOrder::new();
-    let (_w, out, r) = run_history(h, &mut [&mut mon]);
+    let (_w, out, r) = run_history_mode(h, &mut [&mut mon], false);
     count_outcome(&out, st);
     r?;
     st.count("event_lists", mon.lists);
